@@ -102,7 +102,8 @@ def run_case(case):
            "requested": ["_"] + list(requested), "which": which,
            "fitted": False, "forcepos": True, "values_match": True,
            "unchanged": True, "scale_ok": True, "retract_ok": True,
-           "repeat_ok": True, "case": [recipe, state, requested, which]}
+           "repeat_ok": True, "history_ok": True,
+           "case": [recipe, state, requested, which]}
     try:
         idnt = make(recipe)
         rec["fitted"] = bring_to_state(idnt, state, recipe)
@@ -129,6 +130,41 @@ def run_case(case):
                 one = IndentationRater.compute_features(idnt, names=[n])
             if not np.array_equal(np.asarray([v]), one, equal_nan=True):
                 rec["values_match"] = False
+        # a features object that was used before the curve reached its
+        # present state (other pipeline, other model) sees the present
+        # state, nothing of the earlier one
+        try:
+            from nanite.rate.features import IndentationFeatures
+            if state == "fresh":
+                raise StopIteration    # (not reachable from a used curve)
+            h = make(recipe)
+            with warnings.catch_warnings():
+                warnings.simplefilter("ignore")
+                h.apply_preprocessing(["compute_tip_position",
+                                       "correct_tip_offset"])
+                try:
+                    h.fit_model(model_key="hertz_cone"
+                                if recipe.get("fit_model", "hertz_para")
+                                != "hertz_cone" else "hertz_para",
+                                range_x=[-3e-7, 2e-7])
+                except BaseException as exc:
+                    if isinstance(exc, (KeyboardInterrupt, SystemExit)):
+                        raise
+                kept = IndentationFeatures(h)
+                for n in IndentationFeatures.get_feature_names():
+                    float(getattr(kept, n)())
+                h.fit_properties["range_x"] = [0, 0]
+                bring_to_state(h, state, recipe)
+                vh = np.array([float(getattr(kept, n)()) for n in names])
+            rec["history_ok"] = bool(np.array_equal(vh, vals,
+                                                    equal_nan=True))
+        except StopIteration:
+            pass
+        except BaseException as exc:
+            if isinstance(exc, (KeyboardInterrupt, SystemExit)):
+                raise
+            rec["history_ok"] = False
+            rec["history_exc"] = type(exc).__name__ + ": " + str(exc)[:80]
         # a common positive factor on force and fit changes nothing
         if "fit" in idnt:
             for c in (2.0, .5, 1e9):
